@@ -754,11 +754,22 @@ def run_document(ctx, prop: str, lines, crlf, final_nl, ops_seed, n_ops, witness
         mon('C04', 'C04:readonly', msg)
 
     # ---- history ------------------------------------------------------------------------------------
-    for flag in (False, True):
+    # random histories in both modes + directed ones: every model / wrapper gets its calls on a fresh parse
+    plans = [(False, None), (True, None)]
+    sur0, wrap0, _ = Doc(text, False).targets()
+    for path, _m in (sur0 if len(sur0) <= 5 else rng.sample(sur0, 5)):
+        plans.append((False, [['claim_trailing', path, False], ['claim_leading', path, False],
+                              ['reclaim_trailing', path, False], ['reclaim_leading', path, False],
+                              ['auto2', 'F', None]]))
+    for path, _m, _n in (wrap0 if len(wrap0) <= 3 else rng.sample(wrap0, 3)):
+        plans.append((False, [['claim_inter', path, None], ['reclaim_inter', path, None],
+                              ['unclaim_inter', path, None], ['auto2', path.rsplit('.', 1)[0], None],
+                              ['auto2', 'F', None]]))
+    for flag, plan in plans:
         doc = Doc(text, flag)
         full0 = doc.full()
         vis0 = visible(doc)
-        ops = gen_ops(rng, doc, n_ops)
+        ops = plan if plan is not None else gen_ops(rng, doc, n_ops)
         prims = []
         for k, op in enumerate(ops):
             before = doc.snap()
@@ -965,11 +976,11 @@ def run(ctx: common.Ctx):
     ctx.rule = RULE
     ctx.assumptions += ASSUME
     ctx.require_coq(['properties/C14'], extra_targets=['CommentsRun'])
-    run_all(ctx, 'C14', 40, 400)
+    run_all(ctx, 'C14', 70, 1000)
 
 
 def search(ctx: common.Ctx):
-    run_all(ctx, 'C14', 40, 400)
+    run_all(ctx, 'C14', 70, 1000)
 
 
 def replay(ctx, path):
